@@ -164,6 +164,10 @@ func (c *osstopC) scenario(sig, timeout int, cmdKind string, parentOnly bool, tr
 		shut = fmt.Sprintf("echo \"$$PCV_MARK $$(pwd)\" > %s/cmd.ran; exit 3", dir)
 	case "slow":
 		shut = fmt.Sprintf("echo \"$$PCV_MARK $$(pwd)\" > %s/cmd.ran; sleep 4", dir)
+	case "slowfork":
+		// the shell forks the slow part (it is not its last command): when the timeout kills the shell, a
+		// child of the shutdown command is still around for a while
+		shut = fmt.Sprintf("echo \"$$PCV_MARK $$(pwd)\" > %s/cmd.ran; sleep 4; true", dir)
 	}
 	// `nostart`: the shutdown command cannot even be launched - the process's working directory is
 	// removed while it runs (a launch failure, not a non-zero exit)
@@ -355,7 +359,10 @@ func (c *osstopC) scenario(sig, timeout int, cmdKind string, parentOnly bool, tr
 		}
 	}
 	if first >= 0 {
-		if first >= time.Duration(timeout)*time.Second-40*time.Millisecond && timeout > 0 {
+		if timeout > 0 && first >= time.Duration(timeout)*time.Second+2500*time.Millisecond {
+			// the escalation came, but long after the configured timeout had elapsed
+			kill = "late"
+		} else if first >= time.Duration(timeout)*time.Second-40*time.Millisecond && timeout > 0 {
 			kill = "ge"
 		} else {
 			kill = "lt"
@@ -439,6 +446,8 @@ func (c *osstopC) Gen(r *rand.Rand, tier string, emit func(string)) {
 		// directed: a second signal to the binary while the shutdown waits for a trapping member's timeout
 		ops = append(ops, "os 15 1 - 0 p:i:- bin2HUP", "os 15 2 - 0 p::-,c:i:p bin2INT", "os 0 1 - 0 p:i:-,c::p bin2TERM")
 	}
+	// directed: a shutdown command that outlives the timeout and has forked a child
+	ops = append(ops, "os 15 1 slowfork 0 p:i:- api", "os 15 1 slowfork 0 p:i:-,c::p shutdown")
 	seen := map[string]bool{}
 	for len(ops) < n {
 		// SIGINT is left out as a configured signal: sh starts background children with SIGINT ignored
